@@ -142,6 +142,13 @@ pub trait DeepRead {
     fn hop(&mut self, _op: &HOp) -> String {
         "bad".into()
     }
+    /// FlexVec::push_default for item types that implement FlatDefault (None: not available)
+    fn push_default_to<L: Flat + Length>(_v: &mut FlexVec<Self, L>) -> Option<Result<(), Error>>
+    where
+        Self: Flat,
+    {
+        None
+    }
 }
 
 /// In-place operations of the history suites.
@@ -228,6 +235,9 @@ macro_rules! impl_prim {
         impl DeepRead for $t {
             fn deep(&self, o: &mut String) {
                 write!(o, "{:#x}", (*self as $u) as u128).unwrap();
+            }
+            fn push_default_to<L2: Flat + Length>(v: &mut FlexVec<Self, L2>) -> Option<Result<(), Error>> {
+                Some(v.push_default().map(|_| ()))
             }
         }
         impl FromSpec for $t {
@@ -408,6 +418,9 @@ unsafe impl<'a, T: FromSpec + Flat, const N: usize> Emplacer<[T; N]> for Dyn<'a>
 }
 
 impl<T: DeepRead + FromSpec + Clone + Flat + Sized, L: Flat + Length> DeepRead for FlatVec<T, L> {
+    fn push_default_to<L2: Flat + Length>(v: &mut FlexVec<Self, L2>) -> Option<Result<(), Error>> {
+        Some(v.push_default().map(|_| ()))
+    }
     fn deep(&self, o: &mut String) {
         write!(o, "(c{:#x}", self.capacity()).unwrap();
         let len = self.len();
@@ -496,6 +509,9 @@ unsafe impl<'a, T: FromSpec + Flat + Sized, L: Flat + Length> Emplacer<FlatVec<T
 }
 
 impl<L: Flat + Length> DeepRead for FlatString<L> {
+    fn push_default_to<L2: Flat + Length>(v: &mut FlexVec<Self, L2>) -> Option<Result<(), Error>> {
+        Some(v.push_default().map(|_| ()))
+    }
     fn deep(&self, o: &mut String) {
         write!(o, "(c{:#x}", self.capacity()).unwrap();
         let s = self.as_str();
@@ -553,7 +569,10 @@ where
     }
     fn hop(&mut self, op: &HOp) -> String {
         match op {
-            HOp::Push(s) => match self.push(Dyn(s)) {
+            // (push default) goes through FlexVec::push_default where the item type has a FlatDefault impl
+            HOp::Push(s) => match (if matches!(s, Spec::Default) { T::push_default_to(self) } else { None })
+                .unwrap_or_else(|| self.push(Dyn(s)).map(|_| ()))
+            {
                 Ok(_) => "done".into(),
                 Err(e) => format!("err:{:?}", e.kind),
             },
